@@ -77,6 +77,34 @@ def main():
     a = ap.parse_args()
     if a.cmd == "ingest":
         ingest(a.args[0])
+    elif a.cmd == "verify":
+        # demo passes on the current /repo tree and fails on a scratch copy with the patch applied
+        sys.path.insert(0, os.path.join(HERE, "tools"))
+        import mut
+        names = a.args or sorted(n for n in os.listdir(os.path.join(HERE, "seeded")) if os.path.exists(os.path.join(HERE, "seeded", n, "patch.diff")))
+        for name in names:
+            demo = os.path.join(HERE, "seeded", name, "demo.py")
+            import re
+            d0 = mut.make_copy({"name": name + "-unpatched", "edits": []})
+            open(os.path.join(d0, "demo.py"), "w").write(re.sub(r"/tmp/wt-C\d+", d0, open(demo).read()))
+            rc0, out0 = sh([PY, "-B", os.path.join(d0, "demo.py")], d0, {"PYTHONPATH": d0, "PYTHONDONTWRITEBYTECODE": "1"})
+            shutil.rmtree(d0, ignore_errors=True)
+            try:
+                d = mut.make_copy({"name": name, "patch": f"seeded/{name}/patch.diff"})
+            except SystemExit as ex:
+                print(f"{name}: PATCH-DOES-NOT-APPLY ({ex})")
+                continue
+            try:
+                # the demos put their own worktree path first on sys.path: run them from a copy inside the scratch tree
+                shutil.copy(demo, os.path.join(d, "demo.py"))
+                src = open(os.path.join(d, "demo.py")).read()
+                import re
+                src = re.sub(r"/tmp/wt-C\d+", d, src)
+                open(os.path.join(d, "demo.py"), "w").write(src)
+                rc1, out = sh([PY, "-B", os.path.join(d, "demo.py")], d, {"PYTHONPATH": d, "PYTHONDONTWRITEBYTECODE": "1"})
+            finally:
+                shutil.rmtree(d, ignore_errors=True)
+            print(f"{name}: demo on current tree rc={rc0}, with patch rc={rc1} -> {'OK' if rc0 == 0 and rc1 != 0 else 'CHECK'}")
     elif a.cmd == "run":
         name = a.args[0]
         props = a.props.split(",") if a.props else [name.split("-")[0]]
